@@ -14,3 +14,89 @@ theorem duplicate_at_repetition (kn : Node) (what : String) (pos : AL.Yaml.Pos) 
     (AL.C13P.dupAt kn what pos cs).pos = kn.pos := rfl
 
 end AL.C07R
+
+namespace AL.C07M
+open AL.Rules AL.Yaml AL.Ast
+
+/-- shell-name: at the `shell:` value -/
+theorem checkShellName_pos (lower : String → String) (pf : Platform) (node : Option Str) :
+    ∀ d ∈ checkShellName lower pf node, ∃ n, node = some n ∧ d.pos = n.pos := by
+  intro d h
+  simp only [checkShellName] at h
+  split at h
+  · cases h
+  · rename_i n
+    split at h
+    · cases h
+    · split at h
+      · cases h
+      · split at h
+        · cases h
+        · simp only [List.mem_singleton] at h; subst h; exact ⟨n, rfl, rfl⟩
+
+/-- runner-label, unknown label: at the label (also when it comes out of a matrix row: at the row's value) -/
+theorem verifyRunnerLabel_pos (lower : String → String) (label : Str) :
+    ∀ d ∈ (verifyRunnerLabel lower label).2, d.pos = label.pos := by
+  intro d h
+  simp only [verifyRunnerLabel] at h
+  split at h
+  · cases h
+  · split at h
+    · cases h
+    · simp only [List.mem_singleton] at h; subst h; rfl
+
+/-- runner-label, conflict: at the later label, naming the earlier one and its position -/
+theorem conflictDiag_pos (label found : Str) : (conflictDiag label found).pos = label.pos ∧
+    (conflictDiag label found).args = [label.value, found.value, AL.PW.posString found.pos] := ⟨rfl, rfl⟩
+
+/-- action: at `uses:` or at the name of the offending input -/
+theorem checkActionInputs_pos (spec : String) (declared : List (String × String × Bool)) (e : ExecAction) (usesPos : AL.Rules.Pos) :
+    ∀ d ∈ checkActionInputs spec declared e usesPos, d.pos = usesPos ∨ ∃ kv ∈ e.inputs.getD [], d.pos = kv.2.name.pos := by
+  intro d h
+  simp only [checkActionInputs, List.mem_append, List.mem_flatMap] at h
+  rcases h with ⟨kv, hk, hd⟩ | ⟨id, _, hd⟩
+  · split at hd
+    · cases hd
+    · simp only [List.mem_singleton] at hd; subst hd; exact Or.inr ⟨kv, hk, rfl⟩
+  · split at hd
+    · split at hd
+      · cases hd
+      · simp only [List.mem_singleton] at hd; subst hd; exact Or.inl rfl
+    · cases hd
+
+/-- workflow-call: at the `uses:` value -/
+theorem workflowCallJob_pos (j : Job) :
+    ∀ d ∈ workflowCallJob j, ∃ c u, j.workflowCall = some c ∧ c.uses = some u ∧ d.pos = u.pos := by
+  intro d h
+  simp only [workflowCallJob] at h
+  split at h
+  · cases h
+  · rename_i c hc
+    split at h
+    · cases h
+    · rename_i u hu
+      split at h
+      · cases h
+      · split at h
+        · cases h
+        · split at h
+          · cases h
+          · simp only [List.mem_singleton] at h; subst h; exact ⟨c, u, hc, hu, rfl⟩
+
+/-- deprecated-commands: at the `run:` value -/
+theorem deprecated_pos (w : Workflow) : ∀ d ∈ ruleDeprecatedCommands w,
+    ∃ j ∈ jobsOf w, ∃ st ∈ AL.Rules.stepsOf j, ∃ e r, st.exec = .run e ∧ e.run = some r ∧ d.pos = r.pos := by
+  intro d h
+  simp only [ruleDeprecatedCommands, List.mem_flatMap] at h
+  obtain ⟨j, hj, st, hst, hd⟩ := h
+  split at hd
+  · rename_i e he
+    split at hd
+    · rename_i r hr
+      simp only [List.mem_map] at hd
+      obtain ⟨_, _, rfl⟩ := hd
+      exact ⟨j, hj, st, hst, e, r, he, hr, rfl⟩
+    · cases hd
+  · cases hd
+
+end AL.C07M
